@@ -130,10 +130,11 @@ theorem astep_callback (t : Rat) (slf tgt : Prop) (x0 y : Actor) (hd : ∃ d, x0
   · obtain ⟨d, hd⟩ := hd
     simp only [core, Prod.mk.injEq] at h
     obtain ⟨h1, h2, h3, h4, h5, h6, h7, h8, h9⟩ := h
-    refine ⟨h1, ?_, ?_, ?_, fun _ => h2, fun _ _ => Or.inr h2, Or.inl h3, ?_, ?_, by rw [h8]; exact id, fun _ => h9⟩
+    refine ⟨h1, ?_, ?_, ?_, fun _ => h2, fun _ _ => Or.inr h2, fun _ => Or.inl h3, ?_, ?_, ?_, by rw [h8]; exact id, fun _ => h9⟩
     · rw [h2]; intro e; cases e
     · rw [h2]; intro e; cases e
     · intro d'; rw [h2]; intro e; cases e
+    · intro e; rw [hd] at e; cases e
     · intro e; rw [hd] at e; cases e
     · intro e; rw [hd] at e; cases e
 
